@@ -20,6 +20,8 @@ where
 
     let mut sorted = false;
     while !sorted {
+        #[cfg(feature = "verif-hooks")]
+        crate::verif::step(crate::verif::Loop::BubblePass);
         sorted = true;
         for i in 1..result_events.len() {
             if result_events[i - 1] < result_events[i] {
@@ -123,6 +125,8 @@ fn get_next_pos(pos: i32, processed: &HashSet<i32>, iteration_map: &[usize]) -> 
     let start_pos = pos;
 
     loop {
+        #[cfg(feature = "verif-hooks")]
+        crate::verif::step(crate::verif::Loop::NextPos);
         pos = iteration_map[pos as usize] as i32;
         if pos == start_pos {
             // Entire group is already processed?
@@ -179,6 +183,8 @@ where
                 // an exterior contour.
                 let lower_contour = &contours[lower_contour_id as usize];
                 if let Some(parent_contour_id) = lower_contour.hole_of {
+                    #[cfg(feature = "verif-hooks")]
+                    crate::verif::hit(crate::verif::Site::CeContourHoleSibling);
                     // The lower contour is a hole => Connect the new contour as a hole to its parent,
                     // and use same depth.
                     contours[parent_contour_id as usize].hole_ids.push(contour_id);
@@ -188,6 +194,8 @@ where
                 } else {
                     // The lower contour is an exterior contour => Connect the new contour as a hole,
                     // and increment depth.
+                    #[cfg(feature = "verif-hooks")]
+                    crate::verif::hit(crate::verif::Site::CeContourHole);
                     contours[lower_contour_id as usize].hole_ids.push(contour_id);
                     let hole_of = Some(lower_contour_id);
                     let depth = contours[lower_contour_id as usize].depth + 1;
@@ -195,6 +203,8 @@ where
                 }
             } else {
                 // We are outside => this contour is an exterior contour of same depth.
+                #[cfg(feature = "verif-hooks")]
+                crate::verif::hit(crate::verif::Site::CeContourExteriorAbove);
                 let depth = if lower_contour_id < 0 || lower_contour_id as usize >= contours.len() {
                     debug_assert!(false, "Invalid lower_contour_id should be impossible.");
                     0
@@ -205,6 +215,8 @@ where
             }
         } else {
             // There is no lower/previous contour => this contour is an exterior contour of depth 0.
+            #[cfg(feature = "verif-hooks")]
+            crate::verif::hit(crate::verif::Site::CeContourNoPrev);
             Contour::new(None, 0)
         }
     }
@@ -257,6 +269,8 @@ where
 
         loop {
             // Loop clarifications:
+            #[cfg(feature = "verif-hooks")]
+            crate::verif::step(crate::verif::Loop::ContourStep);
             // - An iteration has two kinds of `pos` advancements:
             //   (A) following a segment via `other_pos`, and
             //   (B) searching for the next outgoing edge on same point.
